@@ -79,7 +79,7 @@ def design_run(work, verdict, full=False):
 def _judge(work, trace, tag="", module="RuleIndexTrace"):
     out = work.path("verdict%s.json" % tag)
     r = tlc_expect_ok(work, module, module + ".cfg",
-                      env={"VERIF_TRACE": trace, "VERIF_OUT": out}, workers=1, timeout=3000, heap="10g")
+                      env={"VERIF_TRACE": trace, "VERIF_OUT": out}, workers=1, timeout=3000, heap="5g")
     v = json.load(open(out))
     v["tlc_states"] = r.distinct
     return v
